@@ -32,6 +32,9 @@ class Interp:
         self._modvar_busy: set[tuple[str, str]] = set()
         self.lambdas: dict[int, tuple[ast.Lambda, Module, Env, FuncInfo | None]] = {}
         self.changed = False
+        self.late_changes: list[Any] = []
+        self.render_log: dict[str, dict[str, AV]] = {}
+        self.render_where: dict[str, list[str]] = {}
         self.unresolved_calls: dict[str, int] = {}
         self.resolved_calls = 0
         self.call_edges: dict[str, set[str]] = {}
@@ -50,6 +53,19 @@ class Interp:
         if not self.raw_classes or not self.config_classes or len(self.ident_classes) < 2:
             raise AnalysisError("source classes (schema models / Config / PythonIdentifier, ClassName) not found")
         self.func_by_qual = {f.qual: f for f in ix.all_functions}
+        self.struct_classes: set[str] = set()
+        scalar = {"str", "Any", "int", "bool", "float", "None"} | self.ident_classes
+        for c in ix.classes.values():
+            if c.qual in self.raw_classes or c.qual in self.config_classes or self.tr.is_enum(c):
+                continue
+            flds = ix.all_fields(c)
+            if not flds or len(flds) > 4 or ix.subclasses(c) or any(b in ix.classes for b in c.bases):
+                continue
+            if "__init__" in c.methods:
+                continue
+            if all(a is not None and (self.tr.from_ann(c.module, a).types <= scalar) and self.tr.from_ann(c.module, a).types
+                   for a in flds.values()):
+                self.struct_classes.add(c.qual)
         self._sizes: dict[str, int] = {}
         self._inline_stack: list[str] = []
         self._inline_cache: dict[Any, AV] = {}
@@ -76,6 +92,8 @@ class Interp:
         if old is None or new != old:
             table[key] = new
             self.changed = True
+            if self.rounds > 16:
+                self.late_changes.append((key, old, new))
 
     # ------------------------------------------------------------------ helpers on AVs
     def finalize(self, v: AV) -> AV:
@@ -111,7 +129,8 @@ class Interp:
         if flow.types and flow.types < types and not ({"Any"} & flow.types):
             types = flow.types
         labels = flow.labels | (ann.labels & {ENUM, NUM})
-        return self.finalize(AV(types, labels, elem, key, tup, flow.alts, flow.funcs | ann.funcs, flow.consts, flow.bound))
+        return self.finalize(AV(types, labels, elem, key, tup, flow.alts, flow.funcs | ann.funcs, flow.consts, flow.bound,
+                                flow.attrs))
 
     def tag(self, v: AV, label: str, d: int = 0) -> AV:
         """Mark a (typed) value read from a source object, recursively through its container structure."""
@@ -166,6 +185,10 @@ class Interp:
                 continue
             src = self.source_label(c.qual)
             fld = self.ix.find_field(c, attr)
+            if fld is not None and c.qual in self.struct_classes and v.attr(attr) is not None:
+                out = join(out, v.attr(attr))
+                hit = True
+                continue
             if fld is not None:
                 ann = self.tr.from_ann(fld[0].module, fld[1]) if fld[1] is not None else BOTTOM
                 if src is not None:
@@ -197,7 +220,7 @@ class Interp:
                 out = join(out, typed("str", labels=[ENUM]))
                 hit = True
         if not hit:
-            if v.labels & {RAW, CONFIG}:
+            if v.labels & {RAW, CONFIG} and not any(t in self.ix.classes for t in v.types):
                 lab = RAW if RAW in v.labels else CONFIG
                 return typed("Any", labels=[lab])
             if "HTTPStatus" in v.types and attr in ("value", "name", "phrase"):
@@ -216,6 +239,8 @@ class Interp:
             return AV(funcs=frozenset({("pathmeth", attr)}), bound=v)
         if t in ("str", "list", "set", "dict", "tuple", "iter", "bytes", "Any"):
             return AV(funcs=frozenset({("meth", attr)}), bound=v)
+        if t.startswith("jinja2."):
+            return AV(funcs=frozenset({("jinja", attr)}), bound=v)
         return None
 
     def class_attr(self, c: ClassInfo, attr: str) -> AV | None:
@@ -483,11 +508,18 @@ class Interp:
             self.call_function(init, [inst, *args], kwargs, where)
             return inst
         flds = list(self.ix.all_fields(c).keys())
+        given: dict[str, AV] = {}
         for i, v in enumerate(args):
             if i < len(flds):
                 self.write_field(inst, flds[i], v, where)
+                given[flds[i]] = v
         for k, v in kwargs.items():
             self.write_field(inst, k, v, where)
+            given[k] = v
+        if c.qual in self.struct_classes:
+            allf = self.ix.all_fields(c)
+            inst = replace(inst, attrs=tuple(sorted(
+                (k, self.shape(self.tr.from_ann(c.module, allf[k]), given.get(k, BOTTOM))) for k in allf)))
         # dataclass / attrs defaults
         for k2 in self.ix.mro(c):
             for fname, dflt in k2.field_defaults.items():
@@ -859,9 +891,32 @@ class Interp:
                 out = join(out, self.builtin_method(f.bound or BOTTOM, fn[1], args, kwargs, where))
             elif kind == "pathmeth":
                 out = join(out, self.path_method(f.bound or BOTTOM, fn[1], args, kwargs))
+            elif kind == "jinja":
+                out = join(out, self.jinja_call(f.bound or BOTTOM, fn[1], args, kwargs, where))
             elif kind == "module":
                 pass
         return out
+
+    def jinja_call(self, recv: AV, attr: str, args: list[AV], kwargs: dict[str, AV], where: str) -> AV:
+        """Environment.get_template(name) / Template.render(**vars): the Python -> template bridge (E4)."""
+        if attr == "get_template":
+            names = frozenset(c for c in ((args[0].consts if args else None) or ()) if isinstance(c, str))
+            if not names:
+                self.render_log.setdefault("<non-constant template name>", {})
+            return AV(types=frozenset({"jinja2.Template"}), consts=names or None)
+        if attr == "render" and "jinja2.Template" in recv.types:
+            for name in (recv.consts or ["<non-constant template name>"]):
+                d = self.render_log.setdefault(name, {})
+                sites = self.render_where.setdefault(name, [])
+                if where not in sites:
+                    sites.append(where)
+                for k, v in kwargs.items():
+                    nv = join(d.get(k), v)
+                    if nv != d.get(k):
+                        d[k] = nv
+                        self.changed = True
+            return typed("str", labels=[CONST])
+        return AV(types=recv.types)
 
     # -- transfer functions of library calls --------------------------------
     def ext_call(self, name: str, f: AV, args: list[AV], kwargs: dict[str, AV], n: ast.Call | None, env: Env, where: str) -> AV:
@@ -969,7 +1024,7 @@ class Interp:
         if name.startswith("builtins.") and short[:1].isupper():  # exception classes
             return AV(types=frozenset({name}))
         self.unresolved_calls[name] = self.unresolved_calls.get(name, 0) + 1
-        return typed("Any", labels=self._deep(join_all(args)) & {RAW, UNKNOWN, CONFIG})
+        return typed("Any", labels=(self._deep(join_all(args)) & {RAW, UNKNOWN, CONFIG}) or {UNKNOWN})
 
     def path_method(self, recv: AV, m: str, args: list[AV], kwargs: dict[str, AV]) -> AV:
         if m in ("absolute", "resolve", "with_suffix", "joinpath", "expanduser"):
@@ -1333,8 +1388,8 @@ class Interp:
             return replace(cur, types=frozenset(want), labels=frozenset({NUM}), alts=None), cur
         if anyish:
             return replace(cur, types=frozenset(want) if not yes_t else yes_t), cur
-        yes = replace(cur, types=yes_t or frozenset(want))
-        no = replace(cur, types=no_t) if no_t else cur
+        yes = self.finalize(replace(cur, types=yes_t or frozenset(want)))
+        no = self.finalize(replace(cur, types=no_t)) if no_t else cur
         if cur.tup is None and cur.elem is None:
             return yes, no
         return yes, no
